@@ -114,8 +114,8 @@ def parseSyls : List Text → Except LineErr (List Nat)
 
 /-- the frequency of `parse_line`: `fs` are the non-empty delimiter-separated fields -/
 def parseFreq (keep : Bool) (phrase : Text) (fs : List Text) : Except LineErr Nat :=
-  if phrase.length == cliWordLen && !keep then .ok cliWordFreq
-  else match fs[cliFreqField]? with
+  if phrase.length == 1 && !keep then .ok 0
+  else match fs[1]? with
     | none => .error .noFreq
     | some f1 =>
       match parseU32 (trimQ f1) with
@@ -130,7 +130,7 @@ def parseLine (delim : Nat) (keep : Bool) (line : Text) : Except LineErr Rec :=
     match parseFreq keep (trimQ f0) (f0 :: fs) with
     | .error e => .error e
     | .ok freq =>
-      match parseSyls ((tokens sylSep line).drop cliSylSkip) with
+      match parseSyls ((tokens sylSep line).drop 2) with
       | .error e => .error e
       | .ok syls => .ok { phrase := trimQ f0, freq := freq, syls := syls }
 
@@ -166,7 +166,7 @@ def Flags.delim (f : Flags) : Nat := if f.csv then cliCsvDelim else cliSsvDelim
 def parseAll (f : Flags) : Nat → List Text → List Rec × List (Nat × LineErr)
   | _, [] => ([], [])
   | idx, l :: ls =>
-    if f.csv && idx == cliCsvHeaderLine then parseAll f (idx + 1) ls
+    if f.csv && idx == 0 then parseAll f (idx + 1) ls
     else match parseLine f.delim f.keep l with
       | .ok r => (r :: (parseAll f (idx + 1) ls).1, (parseAll f (idx + 1) ls).2)
       | .error e => ((parseAll f (idx + 1) ls).1, (idx, e) :: (parseAll f (idx + 1) ls).2)
@@ -180,7 +180,7 @@ deriving Repr, DecidableEq
 
 /-- `init_database::run` up to `builder.build` -/
 def compileRun (f : Flags) (src : List Text) : CompileResult :=
-  { reported := (parseAll f 0 src).2.map (fun e => (e.1 + cliLineBase, e.2)),
+  { reported := (parseAll f 0 src).2.map (fun e => (e.1 + 1, e.2)),
     inserted := if !(parseAll f 0 src).2.isEmpty && !f.skip then none else some (parseAll f 0 src).1 }
 
 /-- the same as an `Except`: the reported lines if the tool exits with status 1 -/
